@@ -134,7 +134,7 @@ def gen_cases(tier, seed):
             sites = sites[:1] + rng.sample(sites[1:], min(2, len(sites) - 1))
         for site in sites:
             for how in ('kbi_result', 'kbi_shutdown', 'kbi_exit'):
-                for extra_n in ((0,) if quick else (0, 1)):
+                for extra_n in ((0, 1) if how != 'kbi_result' or not quick else (0,)):
                     s = copy.deepcopy(base)
                     s['seed'] = rng.randrange(1 << 30)
                     s['mode'] = how
@@ -216,6 +216,18 @@ def evaluate(obs):
                 not_started = (x.idx >= 1)
         if not_started:
             stats['not_started_checked'] += 1
+        gate = (spec.get('plan') or {}).get('gate') or {}
+        if (fam == 'kbi' and how in ('kbi_shutdown', 'kbi_exit') and spec.get('trigger') == 'immediate' and gate.get('after_cancel_begin')
+                and gate.get('match') == '/s3:'):
+            # every request of every transfer was held at the gate from the start until the Ctrl-C had begun, and is only let go when
+            # the process is quiescent again, i.e. after the interrupted shutdown has cancelled everything unfinished: apart from
+            # the requests already begun (parked) and the abort of a multipart upload, NO further request of any transfer may begin
+            new = [e for e in obs.events if e['kind'] == 'api.begin' and e.get('label') == x.label and e['n'] > cb[0]['n']
+                   and e['op'] != 'AbortMultipartUpload']
+            if new:
+                viol.append(oracles.V(f'{x.label}: {len(new)} new request(s) ({new[0]["op"]} ...) were begun after Ctrl-C had interrupted {how.split("_")[1]}() '
+                                      f'although every unfinished transfer is cancelled then (outcome {x.outcome})', **oracles.base_mech(obs, x), entry=how,
+                                      sym='request-after-interrupt', ntransfers=len(obs.xfers)))
         if targeted or how not in ('future.cancel', 'kbi_result'):
             viol += oracles.cancel_oracle(obs, x, how, not_started=not_started, targeted=targeted)
             nontrivial = True
